@@ -8,6 +8,8 @@
 #include "QXmppClient.h"
 #include "QXmppConstants_p.h"
 
+#include "StringLiterals.h"
+
 #include <QDomElement>
 
 /// \cond
@@ -20,6 +22,13 @@ QStringList QXmppArchiveManager::discoveryFeatures() const
 bool QXmppArchiveManager::handleStanza(const QDomElement &element)
 {
     if (element.tagName() != u"iq") {
+        return false;
+    }
+
+    // Only responses from the archive are processed here. Requests must not be swallowed: the
+    // client answers unhandled IQ requests with an error (RFC 6120, 8.2.3).
+    const auto iqType = element.attribute(u"type"_s);
+    if (iqType == u"get" || iqType == u"set") {
         return false;
     }
 
